@@ -8,6 +8,7 @@ package c19
 import (
 	"context"
 	"fmt"
+	"math"
 	"sort"
 	"strconv"
 	"sync"
@@ -36,19 +37,19 @@ const (
 
 // grant is what the scheduler hands to the binder for one bind attempt.
 type grant struct {
-	Cdi     bool     `json:"cdi,omitempty"`
-	Ids     []string `json:"reservedGPUIds"`
-	Portion string   `json:"portion,omitempty"` // filled in from the scheduler's reading when empty
+	Cdi           bool     `json:"cdi,omitempty"`
+	Ids           []string `json:"reservedGPUIds"`
+	NodeGpuMemory int64    `json:"nodeGpuMemoryMiB,omitempty"` // memory of every GPU of the node the pod is placed on
+	Portion       string   `json:"portion,omitempty"`          // observed: BindRequest.Spec.ReceivedGPU.Portion the real scheduler cache wrote
 }
 
 // bindPlan is the generated part of a binder run.
 type bindPlan struct {
-	Rounds        []grant                      `json:"rounds,omitempty"`
-	PreCap        map[string]string            `json:"preExistingCapabilitiesMap,omitempty"`
-	PreEvar       map[string]string            `json:"preExistingEvarMap,omitempty"`
-	PreOther      map[string]map[string]string `json:"preExistingOtherMaps,omitempty"`
-	NodeGpuMemory int64                        `json:"nodeGpuMemoryMiB,omitempty"`
-	Legacy        bool                         `json:"alsoUnmutatedPod,omitempty"`
+	Rounds   []grant                      `json:"rounds,omitempty"`
+	PreCap   map[string]string            `json:"preExistingCapabilitiesMap,omitempty"`
+	PreEvar  map[string]string            `json:"preExistingEvarMap,omitempty"`
+	PreOther map[string]map[string]string `json:"preExistingOtherMaps,omitempty"`
+	Legacy   bool                         `json:"alsoUnmutatedPod,omitempty"`
 }
 
 var preDataPool = []map[string]string{
@@ -60,7 +61,7 @@ var preDataPool = []map[string]string{
 }
 
 func genBindPlan(r *u.Rng) bindPlan {
-	b := bindPlan{NodeGpuMemory: int64(u.Pick(r, []int{16384, 40960, 81920}))}
+	b := bindPlan{}
 	nr := 1
 	if r.Chance(1, 4) {
 		nr = 2
@@ -68,7 +69,7 @@ func genBindPlan(r *u.Rng) bindPlan {
 	for i := 0; i < nr; i++ {
 		ids := []string{"0", "1", "2", "3", "4", "5", "6", "7"}
 		u.Shuffle(r, ids)
-		b.Rounds = append(b.Rounds, grant{Cdi: r.Chance(1, 4), Ids: ids})
+		b.Rounds = append(b.Rounds, grant{Cdi: r.Chance(1, 4), Ids: ids, NodeGpuMemory: int64(u.Pick(r, []int{16384, 24576, 40960, 81920}))})
 	}
 	if r.Chance(1, 5) {
 		b.PreCap = u.Pick(r, preDataPool)
@@ -202,11 +203,16 @@ func listMaps(cl client.Client, ns string) map[string]map[string]string {
 // ---- one binder run ----------------------------------------------------------
 
 type roundObs struct {
-	Grant grant                        `json:"grant"`
-	Ok    bool                         `json:"prebind_ok"`
-	Err   string                       `json:"prebind_error,omitempty"`
-	Maps  map[string]map[string]string `json:"configMaps"`
-	Env   []contEnv                    `json:"effective_env"`
+	Grant grant      `json:"grant"`
+	Sched schedGrant `json:"scheduler_bind_request"`
+	// the portion the selected container is told, parsed, against the portion the scheduler booked
+	PortionVars  map[string]envVal            `json:"selected_container_portion_vars"`
+	PortionExact bool                         `json:"portion_parses_to_accepted_portion"`
+	PortionClose bool                         `json:"portion_within_half_a_hundredth"`
+	Ok           bool                         `json:"prebind_ok"`
+	Err          string                       `json:"prebind_error,omitempty"`
+	Maps         map[string]map[string]string `json:"configMaps"`
+	Env          []contEnv                    `json:"effective_env"`
 }
 
 type bindObs struct {
@@ -236,9 +242,36 @@ func preBind(pl *bindergpu.GPUSharing, pod *v1.Pod, br *v1alpha2.BindRequest, st
 	return pl.PreBind(context.Background(), pod, &v1.Node{ObjectMeta: metav1.ObjectMeta{Name: "node-1"}}, br, st)
 }
 
-// runBinder drives the binder on pod (already admitted). devices / portion: what the
-// scheduler read, used to fill in the grant.
-func runBinder(plan bindPlan, pod *v1.Pod, devices int64, defaultPortion string) (string, bindObs) {
+// portionCheck parses what the selected container is told (GPU_PORTION, RUNAI_NUM_OF_GPUS) and compares it with
+// the portion the scheduler booked for the pod on this node (AcceptedResource).
+func portionCheck(cms map[string]map[string]string, c *v1.Container, accepted float64) (map[string]envVal, bool, bool) {
+	vars := map[string]envVal{}
+	exact, closeTo := true, true
+	for _, name := range []string{envPortion, "RUNAI_NUM_OF_GPUS"} {
+		ev := resolveEnv(cms, c, name)
+		vars[name] = ev
+		if ev.Kind != "value" {
+			exact, closeTo = false, false
+			continue
+		}
+		f, err := strconv.ParseFloat(ev.V, 64)
+		if err != nil {
+			exact, closeTo = false, false
+			continue
+		}
+		if f != accepted {
+			exact = false
+		}
+		if d := f - accepted; d > 0.005000001 || d < -0.005000001 {
+			closeTo = false
+		}
+	}
+	return vars, exact, closeTo
+}
+
+// runBinder drives the binder on pod (already admitted). devices: how many devices the scheduler read (the number
+// of GPU groups it would select). Every grant is the BindRequest the real scheduler cache creates for the pod.
+func runBinder(plan bindPlan, pod *v1.Pod, devices int64) (string, bindObs) {
 	quietLogs()
 	o := bindObs{}
 	ref, rerr := containerRef(pod.DeepCopy())
@@ -292,31 +325,43 @@ func runBinder(plan bindPlan, pod *v1.Pod, devices int64, defaultPortion string)
 	roundTerms := []string{}
 	for _, g := range plan.Rounds {
 		g.Ids = g.Ids[:n]
-		if g.Portion == "" {
-			g.Portion = defaultPortion
+		if g.NodeGpuMemory == 0 {
+			g.NodeGpuMemory = 16384
 		}
 		groups := []string{}
 		for i := range g.Ids {
 			groups = append(groups, "group-"+strconv.Itoa(i))
 		}
-		br := &v1alpha2.BindRequest{
-			ObjectMeta: metav1.ObjectMeta{Name: pod.Name, Namespace: pod.Namespace},
-			Spec: v1alpha2.BindRequestSpec{
-				PodName: pod.Name, SelectedNode: "node-1", SelectedGPUGroups: groups,
-				ReceivedResourceType: bindercommon.ReceivedTypeFraction,
-				ReceivedGPU:          &v1alpha2.ReceivedGPU{Count: len(g.Ids), Portion: g.Portion},
-			},
+		sg := schedulerGrant(pod, g.NodeGpuMemory, groups)
+		g.Portion = sg.Portion
+		ro := roundObs{Grant: g, Sched: sg}
+		if sg.Ok {
+			err := preBind(bindergpu.New(cl, g.Cdi), pod.DeepCopy(), sg.br, &state.BindingState{ReservedGPUIds: append([]string{}, g.Ids...)})
+			ro.Ok = err == nil
+			if err != nil {
+				ro.Err = err.Error()
+			}
+		} else {
+			ro.Err = "scheduler: " + sg.Err
 		}
-		err := preBind(bindergpu.New(cl, g.Cdi), pod.DeepCopy(), br, &state.BindingState{ReservedGPUIds: append([]string{}, g.Ids...)})
-		ro := roundObs{Grant: g, Ok: err == nil, Maps: listMaps(cl, pod.Namespace)}
-		if err != nil {
-			ro.Err = err.Error()
+		ro.Maps = listMaps(cl, pod.Namespace)
+		if o.RefOk {
+			var sel *v1.Container
+			if o.RefType == "InitC" && o.RefIndex < len(pod.Spec.InitContainers) {
+				sel = &pod.Spec.InitContainers[o.RefIndex]
+			} else if o.RefType == "RegularC" && o.RefIndex < len(pod.Spec.Containers) {
+				sel = &pod.Spec.Containers[o.RefIndex]
+			}
+			if sel != nil {
+				ro.PortionVars, ro.PortionExact, ro.PortionClose = portionCheck(ro.Maps, sel, sg.AcceptedPortion)
+			}
 		}
 		ro.Env = envOfAll(ro.Maps, pod)
 		o.Rounds = append(o.Rounds, ro)
 		roundTerms = append(roundTerms, fmt.Sprintf(
-			"{| r_cdi := %s; r_ids := %s; r_portion := %s; r_ok := %s; r_maps := %s; r_env := %s |}",
-			u.Bool(g.Cdi), u.ListOf(g.Ids, u.Str), u.Str(g.Portion), u.Bool(ro.Ok), storeTerm(ro.Maps),
+			"{| r_cdi := %s; r_ids := %s; r_portion := %s; r_accepted := %s; r_exact := %s; r_close := %s; r_ok := %s; r_maps := %s; r_env := %s |}",
+			u.Bool(g.Cdi), u.ListOf(g.Ids, u.Str), u.Str(g.Portion), u.N(math.Float64bits(sg.AcceptedPortion)),
+			u.Bool(ro.PortionExact), u.Bool(ro.PortionClose), u.Bool(ro.Ok), storeTerm(ro.Maps),
 			u.ListOf(ro.Env, func(e contEnv) string {
 				return u.Tuple(e.Type, u.Nat(e.Index), e.Devices.term(), e.Portion.term())
 			})))
